@@ -460,3 +460,146 @@ Proof.
       rewrite <- !app_assoc in IH. cbn [app] in IH. apply IH; [exact C| |exact E].
       intros j Hj. apply in_app_or in Hj. destruct Hj as [Hj|[->|[]]]; auto.
 Qed.
+
+(* ---- the invariant of reachable states ------------------------------------------------------------------ *)
+Record Inv (s : state) : Prop := {
+  i_core : Core (tbl s) (rq s) (queue s) (next s);
+  i_prog : forall i, In i (queue s) -> compat (tbl s) (r_rd (rq s i)) (r_wr (rq s i)) = false;
+  i_nopanic : panicked s = false }.
+
+Lemma inv_init : Inv init.
+Proof.
+  constructor; [constructor| |reflexivity]; cbn.
+  - constructor.
+  - intros i. split; [tauto | discriminate].
+  - reflexivity.
+  - reflexivity.
+  - reflexivity.
+  - intros a. split; [discriminate|]. intros [i [H _]]. discriminate.
+  - intros i j _ H. discriminate.
+  - discriminate.
+  - tauto.
+Qed.
+
+Lemma NoDup_snoc (l : list nat) x : NoDup l -> ~ In x l -> NoDup (l ++ [x]).
+Proof.
+  induction l as [|y l IH]; intros Hnd Hx; cbn.
+  - constructor; [tauto | constructor].
+  - inversion Hnd as [|? ? Hy Hl]; subst. constructor.
+    + rewrite in_app_iff. cbn. intros [H|[H|[]]]; [contradiction|]. subst. apply Hx. now left.
+    + apply IH; [exact Hl|]. intros H. apply Hx. now right.
+Qed.
+
+Lemma inv_do_unlock s i fin :
+  Inv s -> r_held (rq s i) = true -> owns fin = false -> inq fin = false ->
+  (abortish fin = true -> r_ctx (rq s i) = true) -> Inv (do_unlock s i fin).
+Proof.
+  intros I Hh Ho Hq Hc. unfold do_unlock.
+  destruct (core_unlock _ _ _ _ i fin (i_core _ I) Hh Ho Hq Hc) as [T1 [E C1]]. rewrite E.
+  destruct (recheck T1 (upd (rq s) i (set_st (rq s i) fin false)) (queue s)) as [[[T2 f2] rem] gr] eqn:Er.
+  destruct (recheck_inv (queue s) T1 _ [] (next s) T2 f2 rem gr C1) as [C2 P2]; [intros j [] | exact Er |].
+  constructor; cbn; auto.
+Qed.
+
+Lemma inv_relabel s i r' :
+  Inv s -> r_st (rq s i) <> Idle ->
+  r_rd r' = r_rd (rq s i) -> r_wr r' = r_wr (rq s i) -> r_held r' = r_held (rq s i) ->
+  inq (r_st r') = inq (r_st (rq s i)) -> owns (r_st r') = owns (r_st (rq s i)) ->
+  (abortish (r_st r') = true -> r_ctx r' = true) ->
+  Inv (with_rq s (upd (rq s) i r')).
+Proof.
+  intros I Hni Hrd Hwr Hh Hq Ho Hc. pose proof (i_core _ I) as C.
+  assert (i < next s) as Hi.
+  { destruct (le_lt_dec (next s) i) as [Hle|Hlt]; [|exact Hlt]. elim Hni. apply (c_idle _ _ _ _ C). exact Hle. }
+  constructor; cbn.
+  - apply core_nochange with (Q := queue s) (n := next s); auto.
+    + rewrite Hh, <- Ho. apply (c_held _ _ _ _ C).
+    + apply (c_nodup _ _ _ _ C).
+    + apply (queue_same _ _ _ _ _ _ C Hq).
+  - intros j Hj. pose proof (i_prog _ I j Hj) as Hp. unfold upd.
+    destruct (Nat.eqb_spec j i) as [->|Hne]; [now rewrite Hrd, Hwr | exact Hp].
+  - apply (i_nopanic _ I).
+Qed.
+
+Lemma inv_step s a s' : Inv s -> step true s a = Some s' -> Inv s'.
+Proof.
+  intros I H. pose proof (i_core _ I) as C. unfold step in H. rewrite (i_nopanic _ I) in H.
+  destruct a as [R W c|i|i|i b|i].
+  - (* Lock *)
+    set (n := next s) in *.
+    assert (forall j, In j (queue s) -> j <> n) as Hlt.
+    { intros j Hj. pose proof (core_inq_lt _ _ _ _ _ C Hj). unfold n. lia. }
+    destruct (compat (tbl s) R W) eqn:Ec; inversion H; subst; clear H.
+    + constructor; cbn; [| |reflexivity].
+      * set (r' := {| r_rd := R; r_wr := W; r_st := Holding; r_held := true; r_ctx := c |}).
+        change (take (tbl s) R W) with (take (tbl s) (r_rd r') (r_wr r')).
+        apply core_take with (Q := queue s) (n := n); auto.
+        -- apply (core_nheld_ge _ _ _ _ _ C). unfold n. lia.
+        -- cbn. discriminate.
+        -- apply (c_nodup _ _ _ _ C).
+        -- intros j. unfold upd. destruct (Nat.eqb_spec j n) as [->|Hne]; [|apply (c_queue _ _ _ _ C)].
+           cbn. split; [intros Hj; elim (Hlt _ Hj); reflexivity | discriminate].
+      * intros j Hj. rewrite upd_other by (apply Hlt; exact Hj).
+        apply (incompat_mono (tbl s)); [apply tle_take | apply (i_prog _ I j Hj)].
+    + constructor; cbn; [| |reflexivity].
+      * set (r' := {| r_rd := R; r_wr := W; r_st := Waiting; r_held := false; r_ctx := c |}).
+        apply core_nochange with (Q := queue s) (n := n); auto.
+        -- cbn. symmetry. apply (core_nheld_ge _ _ _ _ _ C). unfold n. lia.
+        -- cbn. discriminate.
+        -- cbn. discriminate.
+        -- apply NoDup_snoc; [apply (c_nodup _ _ _ _ C)|]. intros Hj. elim (Hlt _ Hj). reflexivity.
+        -- intros j. rewrite in_app_iff. cbn [In]. unfold upd. destruct (Nat.eqb_spec j n) as [->|Hne].
+           ++ cbn. split; auto.
+           ++ rewrite <- (c_queue _ _ _ _ C). split; [intros [Hj|[Hj|[]]]; [exact Hj | congruence] | auto].
+      * intros j Hj. apply in_app_or in Hj. destruct Hj as [Hj|[<-|[]]].
+        -- rewrite upd_other by (apply Hlt; exact Hj). apply (i_prog _ I j Hj).
+        -- rewrite upd_same. cbn. exact Ec.
+  - (* release *)
+    destruct (r_st (rq s i)) eqn:Es; try discriminate. inversion H; subst; clear H.
+    apply inv_do_unlock; auto.
+    + rewrite (c_held _ _ _ _ C), Es. reflexivity.
+    + cbn. discriminate.
+  - (* cancel *)
+    assert (r_st (rq s i) <> Idle) as Hni by (destruct (r_st (rq s i)); congruence).
+    assert (s' = with_rq s (upd (rq s) i (set_ctx (rq s i)))) as -> by (destruct (r_st (rq s i)); congruence).
+    apply inv_relabel; auto.
+  - (* wake *)
+    destruct b.
+    + destruct (r_ctx (rq s i)) eqn:Ex; [|discriminate].
+      destruct (r_st (rq s i)) eqn:Es; try discriminate; inversion H; subst; clear H;
+        apply inv_relabel; auto; cbn; rewrite ?Es; auto; discriminate.
+    + destruct (r_st (rq s i)) eqn:Es; try discriminate; inversion H; subst; clear H.
+      apply inv_relabel; auto; cbn; rewrite ?Es; auto; discriminate.
+  - (* abort *)
+    destruct (r_st (rq s i)) eqn:Es; try discriminate; inversion H; subst; clear H.
+    + (* nothing was granted: leave the queue *)
+      assert (In i (queue s)) as Hin by (apply (c_queue _ _ _ _ C); now rewrite Es).
+      pose proof (core_inq_lt _ _ _ _ _ C Hin) as Hi.
+      assert (r_held (rq s i) = false) as Hh by (rewrite (c_held _ _ _ _ C), Es; reflexivity).
+      constructor; cbn; [| |reflexivity].
+      * apply core_nochange with (Q := queue s) (n := next s); auto.
+        -- cbn. rewrite Hh. discriminate.
+        -- intros _. cbn. apply (c_ctx _ _ _ _ C). now rewrite Es.
+        -- apply remove_first_NoDup. apply (c_nodup _ _ _ _ C).
+        -- intros j. rewrite (remove_first_In i _ (c_nodup _ _ _ _ C)). unfold upd.
+           destruct (Nat.eqb_spec j i) as [->|Hne].
+           ++ cbn. split; [tauto | discriminate].
+           ++ rewrite (c_queue _ _ _ _ C). tauto.
+      * intros j Hj. apply (remove_first_In i _ (c_nodup _ _ _ _ C)) in Hj. destruct Hj as [Hne Hj].
+        rewrite upd_other by exact Hne. apply (i_prog _ I j Hj).
+    + (* granted meanwhile: give the accounts back *)
+      apply inv_do_unlock; auto.
+      * rewrite (c_held _ _ _ _ C), Es. reflexivity.
+      * intros _. apply (c_ctx _ _ _ _ C). now rewrite Es.
+Qed.
+
+Lemma inv_run acts : forall s s', Inv s -> run true s acts = Some s' -> Inv s'.
+Proof.
+  induction acts as [|a acts IH]; intros s s' I H; cbn [run] in H.
+  - inversion H; subst. exact I.
+  - destruct (step true s a) as [s1|] eqn:E; [|discriminate]. apply (IH s1); [|exact H].
+    apply (inv_step s a); assumption.
+Qed.
+
+Lemma inv_reachable acts s : run true init acts = Some s -> Inv s.
+Proof. apply inv_run. apply inv_init. Qed.
